@@ -36,6 +36,9 @@ func coreC10(tier string) []RunSpec {
 		out = append(out, RunSpec{Profile: "core:edge", Params: map[string]int{"edge": 1, "k": k}})
 	}
 	out = append(out, RunSpec{Profile: "core:rotation-dleq", Params: map[string]int{"rotdleq": 1}})
+	for k := 0; k < 12; k++ {
+		out = append(out, RunSpec{Profile: "core:rotation-racing-swap", Params: map[string]int{"rotrace": 1, "k": k}})
+	}
 	for k := 0; k < 3; k++ {
 		out = append(out, RunSpec{Profile: "core:rotation-mixed-token-dleq", Params: map[string]int{"rotdleq": 2, "k": k}})
 	}
@@ -595,6 +598,15 @@ func runC10(rc *RunCtx) {
 				ww.forceSendAll = false
 			}
 			ww.StepReceive()
+		case rc.P("rotrace", 0) == 1:
+			if i == 0 {
+				m.StepRotateRuntimeConcurrent()
+				ww.Rotated["A"]++
+				ww.Fees["A"] = uint64(fee)
+				rc.S.Probe("c10_rotation_racing_swap")
+			} else {
+				ww.Step(T.Pick("step.kind", 2, 5, 5, 2, 1, 0, 1, 0, 1))
+			}
 		case rotdleq:
 			// a token with DLEQ from the old keyset must still be receivable after a rotation
 			if i == 0 {
@@ -604,7 +616,18 @@ func runC10(rc *RunCtx) {
 			}
 			ww.StepReceive()
 		default:
-			switch T.Pick("c10.kind", 6, 3, 2, 1, 1, 2, 1, 1) {
+			switch T.Pick("c10.kind", 6, 3, 2, 1, 1, 2, 1, 1, 1) {
+			case 8:
+				// the operator rotates the keyset on the running mint while a swap is in flight: whatever
+				// is signed must be a signature by the key of the keyset the signature names
+				if ww.Rotated["A"] == 0 {
+					m.StepRotateRuntimeConcurrent()
+					ww.Rotated["A"]++
+					ww.Fees["A"] = uint64(fee)
+					rc.S.Probe("c10_rotation_racing_swap")
+				} else {
+					m.StepFund()
+				}
 			case 6:
 				// several mint requests (different outputs) for one paid quote, then a late one:
 				// whatever is answered with signatures, they must be signatures on the outputs asked
